@@ -66,7 +66,9 @@ def agree_flags(prog, tree, inputs, flags):
 
 FLAGSETS = ["", "O", "o", "j", "s", "W", "H", "M", "m"]
 HAND = ["?(n+)", "?[₀|u]?(n+)", "?ƛ₀+;∑", "@f:2|+;??@f;", "?ɾv›", "?₀₌+-", "?⟨₀|n|:+⟩", "??λ₀|?+;†?", "?(i|←i,)", "?{:|‹n,}", "?λ:[‹x];†", "@f:1|:[‹x];?@f;", "?(?[X]n,)", "?(?[x]n,)", "?ɾƒ+", "?ɾɖ+",
-        "??~+", "?ɾ⁽∷F", "?ɾµN;", "?ɾ'∷;", "λ2|-;??$†", "?:[₀|?|₁|₄]", "?(n(n,))", "?£¥¥+", "?w:h", "₀?ß›", "?ɾ:ƛn›;$∑+"]
+        "??~+", "?ɾ⁽∷F", "?ɾµN;", "?ɾ'∷;", "λ2|-;??$†", "?:[₀|?|₁|₄]", "?(n(n,))", "?£¥¥+", "?w:h", "₀?ß›", "?ɾ:ƛn›;$∑+", "?[₀|?|₁]", "?[₀|?|₁|?|₄]", "?[₀,|?|₁,|?|₄,|₆,]", "@f:1:a|←a-;??@f;", "@f:a:1|←a-;??@f;", "@f:2:a|←a-+;???@f;", "?~-", "~-", "?~+_", "?λ2|-;†", "λ3|--;†",
+        "?(?(n?[X]n,)n,)", "?(?(n?[x]n,)n,)", "?ɾ(n:[X]n,)", "⟨?|?⟩(?(n?[X]),n,)"]
+FLAG_PROGS = ["?", "??+→x", "?(n,)", "?w", "?ɾ", "", "?_", "?:", "₀", "?ɾ:"]
 
 
 def prepare(tier, seed):
@@ -128,7 +130,14 @@ def build(tier, seed, known):
         src += fn_src(name, "inputs: List[int]", ["len(inputs) == 3", "all(-1 <= x <= 3 for x in inputs)"] + ["not (%s)" % e for e in excl], ["return agree(CODE_%s, TREE_%s, inputs)" % (name, name)])
         plan.obs.append(Ob(name, "program", "m", name, 120 if tier == "quick" else 300, "confirmed", "program %s : exec(transpile(P)) vs reference semantics on parse(P): final stack and printed text" % P, "3 inputs, each an int in -1..3 (cyclic input stream)"))
     nflag = 14 if tier == "quick" else 60
-    for i, P in enumerate(prep["keep"][:nflag]):
+    flagged = list(enumerate(prep["keep"][:nflag]))
+    for j, P in enumerate(FLAG_PROGS):
+        src += "PROG_pf%02d = %r\nTREE_pf%02d = parse(tokenise(PROG_pf%02d))\n" % (j, P, j, j)
+        for fl in FLAGSETS + ["Wo", "jo", "so"]:
+            name = "g%02d_%s" % (j, fl or "none")
+            src += fn_src(name, "inputs: List[int]", ["len(inputs) <= 2", "all(-1 <= x <= 3 for x in inputs)"], ["return agree_flags(PROG_pf%02d, TREE_pf%02d, inputs, %r)" % (j, j, fl)])
+            plan.obs.append(Ob(name, "flags", "m", name, 120, "confirmed", "program %r with flags %r (incl. empty final stacks): captured output of execute_vyxal vs reference implicit output" % (P, fl), "0..2 inputs in -1..3"))
+    for i, P in flagged:
         for fl in FLAGSETS:
             name = "f%04d_%s" % (i, fl or "none")
             src += fn_src(name, "inputs: List[int]", ["len(inputs) == 3", "all(-1 <= x <= 3 for x in inputs)"], ["return agree_flags(PROG_p%04d, TREE_p%04d, inputs, %r)" % (i, i, fl)])
